@@ -835,6 +835,12 @@ FragInsensitive ==
 ExpectedReachable ==    \* nothing else can come out either: a "waiting" scenario never produces an outcome
     Expected.st = "waiting" => sres.st = "none" \/ sres.e = "eof"
 
+\* ... and it is reached: once everything written has been delivered and both parties are blocked, the
+\* server has produced the outcome the scenario calls for (unless the client went away first).
+Progress ==
+    Quiet /\ (\A d \in Dirs : av[d] = Total(d)) /\ Expected.st # "waiting" /\ cpc # "stuck" =>
+        sres.st = Expected.st \/ sres.e = "eof"
+
 \* Phases only move forward.
 ServerRank(p) == CASE p \in {"m3", "n2", "hread"} -> 0 [] p = "mrest" -> 1 [] p = "a4" -> 2 [] p = "arest" -> 3 [] p = "apw" -> 4
                    [] p = "r5" -> 5 [] p \in {"rrest", "nrest"} -> 6 [] p \in {"pending", "udphold"} -> 7 [] OTHER -> 8
